@@ -119,27 +119,31 @@ def rejoin (a : α) : List (Iv α) → List (Iv α)
     else x :: rejoin a (y :: rest)
   | l => l
 
+/-- the body of `eraseRegion` once the match list is known: delete the matches (in reverse order), re-insert
+the remnants of the first and the last match when truncating -/
+def eraseCore (nt : ITier α) (ml : List (Iv α)) (a b : α) (mode : EraseMode) : Except Err (ITier α) :=
+  match ml.head?, ml.getLast? with
+  | some f, some g => do
+    if mode = .error then throw .CollisionError
+    let es0 ← deleteIvs nt.es ml.reverse
+    let nt0 : ITier α := { nt with es := es0 }
+    if mode = .truncate then do
+      let nt1 ← if f.s < a then nt0.insertEntry ⟨f.s, a, f.l⟩ .error else pure nt0
+      let nt2 ← if b < g.e then nt1.insertEntry ⟨b, g.e, g.l⟩ .error else pure nt1
+      pure nt2
+    else pure nt0
+  | _, _ => pure nt
+
+/-- the `doShrink` part of `eraseRegion` -/
+def shrinkStep (nt1 : ITier α) (a b : α) : Except Err (ITier α) :=
+  nt1.new (es := some (rejoin a (shrinkIvs a b nt1.es))) (hi := some (shiftBack a b nt1.hi))
+
 /-- `IntervalTier.eraseRegion(start, end, collisionMode, doShrink)` -/
 def ITier.eraseRegion (t : ITier α) (a b : α) (mode : EraseMode) (doShrink : Bool) : Except Err (ITier α) := do
   let mt ← t.crop a b .lax false
-  let ml := mt.es
   let nt ← t.new
-  let nt1 ←
-    match ml.head?, ml.getLast? with
-    | some f, some g => do
-      if mode = .error then throw .CollisionError
-      let es0 ← deleteIvs nt.es ml.reverse
-      let nt0 : ITier α := { nt with es := es0 }
-      if mode = .truncate then do
-        let nt1 ← if f.s < a then nt0.insertEntry ⟨f.s, a, f.l⟩ .error else pure nt0
-        let nt2 ← if b < g.e then nt1.insertEntry ⟨b, g.e, g.l⟩ .error else pure nt1
-        pure nt2
-      else pure nt0
-    | _, _ => pure nt
-  if doShrink then
-    let es := rejoin a (shrinkIvs a b nt1.es)
-    nt1.new (es := some es) (hi := some (shiftBack a b nt1.hi))
-  else pure nt1
+  let nt1 ← eraseCore nt mt.es a b mode
+  if doShrink then shrinkStep nt1 a b else pure nt1
 
 /-- `PointTier.eraseRegion` -/
 def PTier.eraseRegion (t : PTier α) (a b : α) (doShrink : Bool) : Except Err (PTier α) := do
